@@ -1126,4 +1126,4 @@ M("C07-conditional-truncates-condition", "C07", "src/cppparser/cppExpression.cxx
 
 M("C07-generator-as-integer-of-error-result", "C07", "src/interrogate/interfaceMakerPythonNative.cxx",
   "            CPPExpression::Result bounds = array_type->_bounds->evaluate();\n            if (bounds._type == CPPExpression::RT_integer) {\n              array_len = bounds.as_integer();\n            }", "            array_len = array_type->_bounds->evaluate().as_integer();",
-  expect="R07.6|InterfaceMakerPythonNative::write_function_instance|as_integer-of-untested-result")
+  expect="R07.6|write_function_instance|as_integer-of-untested-result")
